@@ -6,6 +6,7 @@ import RbV.Model.Kmp
 import RbV.Model.Bndm
 import RbV.Model.Bom
 import RbV.Lemmas.BomOracle
+import RbV.Thm.GenSrcKmpLps
 /-!
 # C08 — exact matchers return exactly all occurrences
 
@@ -139,5 +140,26 @@ example : Bom.build [1, 2, 1, 1, 2] =
 -- the oracle of `abbbaab` (the pattern is its reverse) accepts `aba`, which is not a factor: the converse of
 -- `bom_oracle_accepts_factors` is false, which is why the search needs `bom_oracle_monotone` for the full window
 example : Bom.runT (Bom.build [2, 1, 1, 2, 2, 2, 1]) 0 [1, 2, 1] = some 5 := by decide
+
+/-! ## Function bodies translated from the source text (docs/notes/GEN.md, "Translated function bodies")
+
+`RbV/Gen/Src*.lean` are regenerated from the Rust text by `tools/rs2lean.py` on every `./check C08`; the theorems below
+are re-proved against the regenerated definitions (proofs: `RbV/Thm/GenSrc*.lean`). `Rs.Res.ok v` = the translated
+function returns `v` without panicking (index out of bounds, checked `usize` arithmetic) and without running out of the
+fuel given to its `while` loops. -/
+
+/-- **`fn lps` of `kmp.rs`, as written, is the mirror model `Kmp.lps`** (for every pattern whose length fits `usize`,
+which every Rust slice does): the tie between the model that `kmp_exact` / `kmp_lps_is_border_table` are about and the
+code is a theorem for this function, not a sample. -/
+theorem kmp_lps_source_eq_model (p : List Nat) (h64 : p.length < 2 ^ 64) :
+    Gen.SrcKmpLps.lps p = Rs.Res.ok (Kmp.lps p) :=
+  GenSrcKmpLps.lps_eq_model p h64
+
+/-- generated code = specification: the translated `lps` returns, without panic, the table of longest proper borders. -/
+theorem kmp_lps_source_is_border_table (p : List Nat) (hp : 0 < p.length) (h64 : p.length < 2 ^ 64) :
+    ∃ l, Gen.SrcKmpLps.lps p = Rs.Res.ok l ∧ l.length = p.length ∧ Kmp.LpsSpec p l :=
+  ⟨Kmp.lps p, GenSrcKmpLps.lps_eq_model p h64, (Kmp.lps_spec p hp).2, (Kmp.lps_spec p hp).1⟩
+
+example : Gen.SrcKmpLps.lps [1, 2, 1, 2, 3] = Rs.Res.ok [0, 0, 1, 2, 0] := by decide
 
 end RbV.Thm.C08
